@@ -1,0 +1,37 @@
+//go:build verif
+
+package rest
+
+import (
+	"github.com/inbucket/inbucket/v3/pkg/extension/event"
+	"github.com/inbucket/inbucket/v3/pkg/msghub"
+	"github.com/inbucket/inbucket/v3/pkg/rest/model"
+)
+
+// VerifListenerV1 exposes a WebSocket v1 hub listener without a network peer.
+type VerifListenerV1 struct{ ml *msgListenerV1 }
+
+// VerifNewListenerV1 creates a v1 listener and registers it with hub.
+func VerifNewListenerV1(hub *msghub.Hub, mailbox string) *VerifListenerV1 {
+	return &VerifListenerV1{ml: newMsgListenerV1(hub, mailbox)}
+}
+
+// C returns the channel the socket writer drains.
+func (v *VerifListenerV1) C() <-chan event.MessageMetadata { return v.ml.c }
+
+// Close does what the socket reader/writer do when the peer goes away.
+func (v *VerifListenerV1) Close() { v.ml.Close() }
+
+// VerifListenerV2 exposes a WebSocket v2 hub listener without a network peer.
+type VerifListenerV2 struct{ ml *msgListenerV2 }
+
+// VerifNewListenerV2 creates a v2 listener and registers it with hub.
+func VerifNewListenerV2(hub *msghub.Hub, mailbox string) *VerifListenerV2 {
+	return &VerifListenerV2{ml: newMsgListenerV2(hub, mailbox)}
+}
+
+// C returns the channel the socket writer drains.
+func (v *VerifListenerV2) C() <-chan *model.JSONMonitorEventV2 { return v.ml.c }
+
+// Close does what the socket reader/writer do when the peer goes away.
+func (v *VerifListenerV2) Close() { v.ml.Close() }
